@@ -140,7 +140,7 @@ func c21ForcedOwnRefresh(t *testing.T, r *verifkit.Run, cli *clientv3.Client) {
 		}()
 		// wait until the in-memory copy shows the growth (CreatePartitions is then at, or just before, persistMu)
 		seen := false
-		for dl := time.Now().Add(10 * time.Second); time.Now().Before(dl); time.Sleep(200 * time.Microsecond) {
+		for dl := time.Now().Add(1500 * time.Millisecond); time.Now().Before(dl); time.Sleep(200 * time.Microsecond) {
 			if m, err := store.metadata.Metadata(ctx, []string{name}); err == nil && len(m.Topics) == 1 && int32(len(m.Topics[0].Partitions)) == n1 {
 				seen = true
 				break
